@@ -348,6 +348,12 @@ func Annotation(t *TypeSpec, sp Spelling) string {
 // ---------------------------------------------------------------------------
 // lower / lift
 
+// FieldIndex returns the Go field index of the field with the given id.
+func (b *Bound) FieldIndex(id uint16) int { return b.idx[id] }
+
+// HolderIndex returns the Go field index of _unknownFields (-1 if none).
+func (b *Bound) HolderIndex() int { return b.holder }
+
 // New allocates a zero value of the bound type and returns a pointer Value (*T).
 func (b *Bound) New() reflect.Value { return reflect.New(b.Type) }
 
